@@ -1,4 +1,4 @@
-from ...errors import ExpectedTokenError
+from ...errors import ExpectedTokenError, MismatchError
 from typing_extensions import override
 from .token import Token
 
@@ -13,15 +13,22 @@ class Number(Token):
 
     def set_value(self, value: str):
         if value.removeprefix("-").isdigit():
-            self.value = int(value)
+            self.value = self.whole(value)
         elif value.endswith("."):
-            self.value = int(value.removesuffix("."))
+            self.value = self.whole(value.removesuffix("."))
         else:
             self.value = float(value)
             if self.value.is_integer():
                 self.value = int(self.value)
 
         return self.value
+
+    def whole(self, digits: str) -> int:
+        try:
+            return int(digits)
+        except ValueError:
+            # more digits than the interpreter converts (its integer digit limit)
+            raise MismatchError(self.stack, "The number is too long to be read.")
 
     def addCharToToken(self, char: str) -> Token.isToken:
         self.index += 1
